@@ -6,6 +6,8 @@ import (
 	"fmt"
 	"time"
 
+	"github.com/free5gc/go-upf/internal/report"
+
 	"github.com/free5gc/go-upf/internal/verif/simk"
 	"github.com/free5gc/go-upf/internal/verif/smf"
 	"github.com/free5gc/go-upf/internal/verif/vsched"
@@ -25,6 +27,7 @@ const period = 3600 * time.Second
 
 type c18Params struct {
 	N, U, Kevt, Ksr int
+	Q               int    // bufburst: scaled capacity of the per-PDR buffer queue
 	Bulk            string // "reassoc", "delete", "establish"
 	M               int    // sessions in the kernel report batch (0: none)
 	HB              bool   // a Heartbeat Request from peer B is in flight as well
@@ -32,6 +35,9 @@ type c18Params struct {
 }
 
 func (p c18Params) String() string {
+	if p.Bulk == "bufburst" {
+		return fmt.Sprintf("N=%d U=%d Ksr=%d bulk=bufburst packets=%d Qbuf=%d hb=%v ticks=%d", p.N, p.U, p.Ksr, p.M, p.Q, p.HB, p.Ticks)
+	}
 	return fmt.Sprintf("N=%d U=%d Kevt=%d Ksr=%d bulk=%s batch=%d hb=%v ticks=%d", p.N, p.U, p.Kevt, p.Ksr, p.Bulk, p.M, p.HB, p.Ticks)
 }
 
@@ -84,6 +90,22 @@ func c18Body(p c18Params) func(x *vsched.Exec) {
 					w.send(0, smf.Del(w.nextSeq(0), s))
 				}
 			})
+		case "bufburst":
+			// a burst of buffered-downlink-packet notifications for ONE (session, PDR): p.M packets against a
+			// buffer queue scaled to p.Q; only the loop itself ever drains that queue (FAR update), so the loop
+			// must never block on it
+			if !w.v.VSetQlen(seids[0], p.Q) {
+				x.V["infra"] = "no session to scale"
+				return
+			}
+			x.V["q"] = p.Q
+			x.V["qseid"] = seids[0]
+			vsched.GoHarness("buffer-listener", func() {
+				for i := 0; i < p.M; i++ {
+					w.v.S.NotifySessReport(report.SessReport{SEID: seids[0], Reports: []report.Report{
+						report.DLDReport{PDRID: 1, Action: report.APPLY_ACT_BUFF, BufPkt: []byte{byte(i + 1)}}}})
+				}
+			})
 		case "establish":
 			expect = p.N
 			vsched.GoHarness("peer-A", func() {
@@ -97,7 +119,7 @@ func c18Body(p c18Params) func(x *vsched.Exec) {
 		if p.HB {
 			vsched.GoHarness("peer-B", func() { w.send(1, smf.Heartbeat(w.nextSeq(1))) })
 		}
-		if p.M > 0 {
+		if p.M > 0 && p.Bulk != "bufburst" {
 			vsched.GoHarness("kernel-report", func() {
 				var hs []simk.Handed
 				for i := 0; i < p.M && i < len(seids); i++ {
@@ -138,6 +160,11 @@ func c18Check(x *vsched.Exec, r vsched.Result) []vsched.Finding {
 	if want, _ := x.V["hb"].(bool); want && hb != 1 {
 		fs = append(fs, vsched.Finding{Sig: "request-unanswered:heartbeat", What: fmt.Sprintf("peer B's Heartbeat Request got %d responses", hb)})
 	}
+	if q, ok := x.V["q"].(int); ok {
+		if n := w.v.VQLen(x.V["qseid"].(uint64), 1); n != q {
+			fs = append(fs, vsched.Finding{Sig: "buffer-queue-length", What: fmt.Sprintf("after a burst larger than the buffer queue it holds %d packets, want %d (the capacity)", n, q)})
+		}
+	}
 	x.V["outcome"] = fmt.Sprintf("A=%d B=%d reports=%d", got, hb, countType(rep[0], smf.MReportReq))
 	return fs
 }
@@ -169,7 +196,11 @@ func c18Scenarios(tier string) []struct {
 	}
 	out = append(out, sc{c18Params{N: 2, U: 2, Kevt: 1, Ksr: 1, Bulk: "reassoc", Ticks: 2}, 2, 6000})
 	out = append(out, sc{c18Params{N: 2, U: 1, Kevt: 2, Ksr: 1, Bulk: "reassoc", M: 2, HB: true, Ticks: 1}, 1, 3000})
+	out = append(out, sc{c18Params{N: 1, U: 1, Kevt: 2, Ksr: 1, Bulk: "bufburst", M: 4, Q: 2, HB: true}, 2, 6000})
 	if tier == "thorough" {
+		for _, q := range []int{1, 2, 3} {
+			out = append(out, sc{c18Params{N: 2, U: 1, Kevt: 2, Ksr: q, Bulk: "bufburst", M: q + 3, Q: q, HB: true, Ticks: 1}, 3, 60000})
+		}
 		for _, bulk := range []string{"reassoc", "delete", "establish"} {
 			for _, k := range [][2]int{{1, 1}, {2, 1}, {2, 2}, {3, 2}} {
 				for _, n := range []int{2, 3, 4} {
